@@ -482,11 +482,8 @@ def lastShots (progs : Nat → Prog) : List Nat → Option Nat
 def effShots (progs : Nat → Prog) (kw : RunKw) (l : List Nat) : Nat :=
   ((kw.shots.orElse fun _ => lastShots progs l)).getD 1
 
-/-- truth value of `c.op.select` (a list for the photon-counting measurements, a number for the others) -/
-def selTruthy (c : Cmd) : Bool :=
-  match c.sel with
-  | none => false
-  | some l => if c.cls == "MeasureFock" || c.cls == "MeasureThreshold" then !l.isEmpty else l != [0]
+/-- `c.op.select is not None` (repaired code: selecting the value 0 is a post-selection too) -/
+def selTruthy (c : Cmd) : Bool := c.sel.isSome
 
 /-- the checks of `LocalEngine.run` on the (uncompiled) circuits: post-selection and feed-forward exclude
 several shots -/
